@@ -1,7 +1,9 @@
 """C20 — equations of state and QHA."""
-from contracts import eos
+from contracts import eos, qha
 
 
 def build(run):
     eos.build(run)
+    qha.init_contract(run)
+    qha.thermal_expansion_contract(run)
     run.not_decided += ["scipy.optimize.leastsq convergence (EOSFit.fit)", "numpy.polyfit fits in QHA"]
